@@ -155,6 +155,11 @@ def run(ctx: Ctx) -> None:
     for c in [c for c in cases if c["nulls"]["a"] and c["nulls"]["A"] and c["na"] == "drop" and c["fid"] == 5][:2]:
         ctx.sample({"formula": FORMULAS[c["fid"]], "nulls": c["nulls"], "drop0": c["drop0"], "expected_drop": c["drop1"], "kept": c["kept"]})
     ctx.exhaustive = True
+    # leg T: random frames, formulas, caller sets, index kinds, entry points validated by TLC (rows, drop set, index labels)
+    from .. import mattrace
+
+    mattrace.run(ctx, 1500 if ctx.quick else 25000, "c06",
+                 judge=lambda v: v in ("caller-drop-set", "number-of-rows", "index-labels", "raise-policy-must-fail", "unexpected-exception"))
 
 
 def replay(path: str) -> int:
